@@ -183,6 +183,10 @@ pub struct RunResult {
     pub hit_sites: Vec<String>,
     pub stdout: Vec<u8>,
     pub stderr: Vec<u8>,
+    /// the wall-clock watchdog killed the tracee (one real system call did not return within the cap). This
+    /// says something about the machine (overload, an I/O stall), not about the program, unless it repeats:
+    /// callers re-run such an execution before believing it.
+    pub watchdog: bool,
 }
 
 impl RunResult {
@@ -244,10 +248,10 @@ static SLOTS: [Slot; NSLOTS] = [SLOT0; NSLOTS];
 static WATCHDOG_STARTED: AtomicI32 = AtomicI32::new(0);
 pub static KERNEL_WAIT_CAP_MS: AtomicU64 = AtomicU64::new(20_000);
 
+/// watchdog ticks since start (+1 so that 0 keeps meaning "not waiting")
+static TICKS: AtomicU64 = AtomicU64::new(1);
 fn now_ms() -> u64 {
-    let mut ts: libc::timespec = unsafe { std::mem::zeroed() };
-    unsafe { libc::clock_gettime(libc::CLOCK_MONOTONIC, &mut ts) };
-    (ts.tv_sec as u64) * 1000 + (ts.tv_nsec as u64) / 1_000_000
+    TICKS.load(Ordering::SeqCst)
 }
 
 /// a forked worker process has no watchdog thread yet
@@ -271,10 +275,16 @@ pub fn start_watchdog() {
     if WATCHDOG_STARTED.swap(1, Ordering::SeqCst) != 0 {
         return;
     }
+    // XV_KERNEL_CAP_MS: only for exercising the re-run path of the harness itself
+    if let Some(ms) = std::env::var("XV_KERNEL_CAP_MS").ok().and_then(|s| s.parse::<u64>().ok()) {
+        KERNEL_WAIT_CAP_MS.store(ms, Ordering::Relaxed);
+    }
+    // Time is counted in the watchdog's own 250 ms ticks, not read from a clock: a pause of the whole machine
+    // (a VM snapshot, a long stall) then costs one tick instead of looking like a call that never returned.
     std::thread::spawn(|| loop {
         std::thread::sleep(std::time::Duration::from_millis(250));
-        let now = now_ms();
-        let cap = KERNEL_WAIT_CAP_MS.load(Ordering::Relaxed);
+        let now = TICKS.fetch_add(1, Ordering::SeqCst) + 1;
+        let cap = KERNEL_WAIT_CAP_MS.load(Ordering::Relaxed) / 250 + 1;
         for s in SLOTS.iter() {
             let since = s.since_ms.load(Ordering::SeqCst);
             let pid = s.pid.load(Ordering::SeqCst);
@@ -1723,7 +1733,10 @@ pub fn execute(l: &Launch, spec: &RunSpec) -> Result<RunResult, String> {
     }
     slot.pid.store(0, Ordering::SeqCst);
     slot.since_ms.store(0, Ordering::SeqCst);
-    let outcome = res?;
+    // a watchdog kill is reported as such even when the dying tracee was collected first as "killed by signal 9",
+    // or when the supervisor tripped over the vanished process
+    let watchdog = slot.fired.load(Ordering::SeqCst) != 0;
+    let outcome = if watchdog { Outcome::KernelBlocked("a real system call did not return within the wall-clock cap".into()) } else { res? };
     let hit_sites: Vec<String> = s.events.iter().filter(|e| e.inj != 0).map(|e| format!("{} {}", e.name, e.rel2.clone().or(e.rel.clone()).unwrap_or_default())).collect();
     Ok(RunResult {
         outcome,
@@ -1738,5 +1751,6 @@ pub fn execute(l: &Launch, spec: &RunSpec) -> Result<RunResult, String> {
         hit_sites,
         stdout: std::fs::read(&l.stdout_path).unwrap_or_default(),
         stderr: std::fs::read(&l.stderr_path).unwrap_or_default(),
+        watchdog,
     })
 }
